@@ -17,7 +17,9 @@ RULE = (
     "array_contract, einsum, single-tensor expression}, "
     "prefer_einsum/implementation, check_zero; with check_zero=True up to 3 "
     "hyperplanes of the inputs along sliced labels are zeroed: identically "
-    "zero slices / chunks, non-zero total). Arrays = integer-valued base bounded away "
+    "zero slices / chunks, non-zero total; optionally the hyperplanes of one "
+    "sliced label get decades of their own in [-100,100], so the slices "
+    "differ by up to 200 decades). Arrays = integer-valued base bounded away "
     "from zero x 10**scale. Oracle in the log domain: exact dense reference "
     "of the UNSCALED bases (never overflows) and the sum of scales; "
     "|mantissa x 10**(exponent - sum) - reference| <= 1e-9 x (the same "
@@ -80,6 +82,12 @@ def cases(draw):
         "aseed": draw(st.integers(0, 999)),
         "check_zero": check_zero,
         "zero_planes": [list(z) for z in zero_planes],
+        # different decades for the different values of one sliced label (on
+        # one tensor carrying it): the slices differ by up to 200 decades
+        "plane_scales": (
+            [draw(st.integers(0, 5)), draw(st.integers(0, 8)), [draw(st.integers(-100, 100)) for _ in range(6)]]
+            if removed and draw(st.booleans()) else None
+        ),
     }
 
 
@@ -117,18 +125,39 @@ def run_case(spec, sub=None):
             bases[i] = bases[i].copy()
             bases[i][sel] = 0
             nzero += 1
+    # per-slice decades: the holder's hyperplane v is scaled by 10**(s_v - smax)
+    # in the (then no longer integer) bases and smax joins the sum of scales
+    extra = 0
+    ps = spec.get("plane_scales")
+    if ps and removed:
+        j, k, svals = ps
+        ix = removed[j % len(removed)][0]
+        holders = [i for i, t in enumerate(inputs) if ix in t]
+        i = holders[k % len(holders)]
+        d = sizes[ix]
+        sv = [svals[v % len(svals)] for v in range(d)]
+        extra = max(sv)
+        bases[i] = bases[i].astype(np.result_type(bases[i], np.float64))
+        for v in range(d):
+            sel = tuple(v if lab == ix else slice(None) for lab in inputs[i])
+            bases[i][sel] = bases[i][sel] * 10.0 ** (sv[v] - extra)
     absb = [np.abs(b) for b in bases]
     R = ref.dense_ref(inputs, output, sizes, bases)
     M = float(np.max(ref.dense_ref(inputs, output, sizes, absb)))
-    S = sum(spec["scales"])
+    S = sum(spec["scales"]) + extra
     cls = [f"api={spec['api']}", f"dtype={spec['dtype']}"]
     if check_zero:
         cls.append("check_zero")
     if nzero:
         cls.append("zero_slices")
+    if ps and removed:
+        cls.append("slices_of_different_decades")
     if not np.any(R != 0):
         return Outcome([], False, cls + ["zero_result_skipped"])
-    arrays = [b * 10.0 ** s for b, s in zip(bases, spec["scales"])]
+    scales = list(spec["scales"])
+    if ps and removed:
+        scales[i] += extra
+    arrays = [b * 10.0 ** s for b, s in zip(bases, scales)]
     out_shape = tuple(sizes[ix] for ix in output)
     kw = {"strip_exponent": True}
     api = spec["api"]
